@@ -117,3 +117,16 @@ Proof.
     exact (guard_exact tbl itf Hm a Hd).
 Qed.
 Print Assumptions C12_generated_guards_are_exact.
+
+(* The counterpart with error mode ON (fourth session, Proofs/ExecUnguard.v): the guard `self.call_invalid_rules` is then
+   true, so the generated parser computes EXACTLY what the parser with every guard removed computes -- same outcome, final
+   position, tokens fetched, cache, trace -- for every module without *_without_invalid methods (those switch the flag off
+   while they run), method, token list, configuration (verbose x cache), fuel and state whose flag is on. *)
+From Pegen Require Import Proofs.ExecUnguard.
+Theorem C12_flag_on_equals_parser_without_guards :
+  forall K toks verbose use_cache M aeval exact_types token_dict fuel n st,
+  no_wi_methods M = true -> invalid st = true ->
+  run K toks verbose use_cache M aeval exact_types token_dict fuel n st =
+  run K toks verbose use_cache (unguard_module M) aeval exact_types token_dict fuel n st.
+Proof. intros K toks verbose use_cache M aeval ex td fuel n st Hn Hi. exact (unguard_equiv K toks verbose use_cache M aeval ex td Hn fuel n st Hi). Qed.
+Print Assumptions C12_flag_on_equals_parser_without_guards.
